@@ -124,10 +124,17 @@ static SockAddr mkAddr(const std::string &host, uint16_t port)
   }
   return r;
 }
+// An IPv4 peer seen through a dual-stack IPv6 socket is reported as ::ffff:a.b.c.d - the same address as
+// a.b.c.d, which is how the raw peer knows itself. Both sides are compared in the plain IPv4 spelling.
+static std::string canonHost(const std::string &h)
+{
+  if (h.size() > 7 && (h.compare(0, 7, "::ffff:") == 0 || h.compare(0, 7, "::FFFF:") == 0) && h.find('.') != std::string::npos) return h.substr(7);
+  return h;
+}
 static std::string addrStr(const TransportAddress &a)
 {
   if (a.host.empty() && a.port == 0) return "";
-  return a.host + ":" + std::to_string(a.port);
+  return canonHost(a.host) + ":" + std::to_string(a.port);
 }
 static const char *errName(TransportError e)
 {
@@ -192,7 +199,11 @@ static bool readUdpDropsFrom(const char *path, bool v6, std::map<std::string, ui
 }
 static bool readUdpDrops(std::map<std::string, uint64_t> &out, bool v6)
 {
-  return readUdpDropsFrom(v6 ? "/proc/net/udp6" : "/proc/net/udp", v6, out);
+  // the family of the listeners decides which table must be readable; the other one is read along
+  // (dual-stack histories have IPv4 connected sockets next to the :: listener)
+  bool a = readUdpDropsFrom("/proc/net/udp", false, out);
+  bool b = readUdpDropsFrom("/proc/net/udp6", true, out);
+  return v6 ? b : a;
 }
 
 // ------------------------------------------------------------------------------ world (shared log)
@@ -259,7 +270,7 @@ struct Hist
   TransportConfig cfg;
   struct Lst { ListenerId id; std::string addr; SockAddr sa; };
   std::vector<Lst> L;
-  struct Peer { int fd; SockAddr sa; std::string addr; uint32_t ovfl = 0; };
+  struct Peer { int fd; SockAddr sa; std::string addr; uint32_t ovfl = 0; bool v6 = false; std::string ip; };
   std::vector<Peer> P;
   std::map<uint64_t, DS> S;
   uint64_t nextId = 1, nextOp = 1;
@@ -270,7 +281,19 @@ struct Hist
   double waitScale = 1.0;
   size_t sessionCap = 0; // TransportConfig::maxSessions (0 = unlimited)
   bool v6 = false; // the whole history runs over ::1 instead of 127.0.0.1
-  const char *host() const { return v6 ? "::1" : "127.0.0.1"; }
+  bool dual = false; // listeners bound to the dual-stack wildcard "::"; IPv4 raw peers appear as ::ffff:127.x.y.z, IPv6 ones as ::1
+  bool wideLoopback = false; // some IPv4 raw peers bind to other addresses of 127.0.0.0/8, a few share a port number
+  vf::Rng famRng{1, 1};
+  const char *listenHost() const { return dual ? "::" : v6 ? "::1" : "127.0.0.1"; }
+  bool lstV6() const { return v6 || dual; }
+  // host text that reaches raw peer p from a listener socket / from a fresh connect() socket
+  std::string viaHost(int p) const { return P[p].v6 ? P[p].ip : (dual ? "::ffff:" + P[p].ip : P[p].ip); }
+  // where raw peer p has to send to reach listener l
+  SockAddr dstFor(int l, int p) const
+  {
+    if (dual) return mkAddr(P[p].v6 ? "::1" : "127.0.0.1", L[l].sa.port());
+    return L[l].sa;
+  }
   int iorasRcvBuf = 4 * 1024 * 1024; // --rcvbuf: only lowered by the self-test of the kernel-drop excuse
   bool deliveryTimedOut = false;
   bool aborted = false; // set by the first delivery watchdog expiry; every later step returns at once
@@ -281,6 +304,9 @@ struct Hist
     codec.nonce = uint32_t(vf::fnv(md) ^ (s * 2654435761u) ^ (i * 40503u));
     vf::Rng fam(s ^ 0x66c06, i); // own stream: the address family does not disturb the rest of the history
     v6 = fam.chance(md == "idle" ? 0.25 : 0.15);
+    dual = !v6 && fam.chance(0.18);
+    wideLoopback = !v6 && fam.chance(0.4);
+    famRng = fam;
     vf::Rng capr(s ^ 0xca9c06, i); // own stream as well: ~15 % of the mix histories run with a small session cap
     if (md != "idle" && capr.chance(0.15)) sessionCap = size_t(capr.range(2, 6));
   }
@@ -339,7 +365,7 @@ struct Hist
     int nl = r.chance(0.3) ? 2 : 1;
     for (int i = 0; i < nl; i++)
     {
-      auto lr = T->addListener(host(), 0);
+      auto lr = T->addListener(listenHost(), 0);
       if (!lr.isOk()) return false;
       Lst l; l.id = lr.value();
       auto la = T->getListenerAddress(l.id);
@@ -352,13 +378,32 @@ struct Hist
     int np = mode == "idle" ? int(r.range(1, 3)) : int(r.range(2, 8));
     for (int i = 0; i < np; i++)
     {
-      Peer p; p.fd = socket(v6 ? AF_INET6 : AF_INET, SOCK_DGRAM | SOCK_CLOEXEC, 0);
+      Peer p;
+      p.v6 = v6 || (dual && famRng.chance(0.3));
+      p.ip = p.v6 ? "::1" : "127.0.0.1";
+      uint16_t wantPort = 0;
+      if (!p.v6 && wideLoopback && famRng.chance(0.5))
+      {
+        // any address of 127.0.0.0/8 is local; the longest spellings (127.1xx.1xx.1xx) give the longest keys
+        char ipb[32];
+        if (famRng.chance(0.5)) snprintf(ipb, sizeof ipb, "127.%u.%u.%u", unsigned(100 + famRng.below(155)), unsigned(100 + famRng.below(155)), unsigned(100 + famRng.below(155)));
+        else snprintf(ipb, sizeof ipb, "127.%u.%u.%u", unsigned(famRng.below(256)), unsigned(famRng.below(256)), unsigned(2 + famRng.below(250)));
+        p.ip = ipb;
+        // same port number as an earlier IPv4 peer, different host: the two must stay different peers
+        if (famRng.chance(0.4)) for (auto &q : P) if (!q.v6 && q.ip != p.ip) { wantPort = q.sa.port(); break; }
+      }
+      p.fd = socket(p.v6 ? AF_INET6 : AF_INET, SOCK_DGRAM | SOCK_CLOEXEC, 0);
       if (p.fd < 0) return false;
       int rb = 4 * 1024 * 1024, one = 1;
       setsockopt(p.fd, SOL_SOCKET, SO_RCVBUF, &rb, sizeof rb);
       setsockopt(p.fd, SOL_SOCKET, SO_RXQ_OVFL, &one, sizeof one);
-      SockAddr a = mkAddr(host(), 0);
-      if (bind(p.fd, a.sa(), a.len) != 0) return false;
+      SockAddr a = mkAddr(p.ip, wantPort);
+      if (bind(p.fd, a.sa(), a.len) != 0)
+      {
+        a = mkAddr(p.ip, 0);
+        if (bind(p.fd, a.sa(), a.len) != 0) return false;
+      }
+      else if (wantPort) feat["raw_peers_sharing_a_port_number_on_different_hosts"]++;
       socklen_t sl = sizeof a.ss; getsockname(p.fd, reinterpret_cast<sockaddr *>(&a.ss), &sl);
       a.len = sl;
       p.sa = a; p.addr = addrStr(a);
@@ -538,7 +583,7 @@ struct Hist
     uint64_t before = dataCount();
     bool refusable = atCap() && !established(p);
     if (atCap()) feat[refusable ? "step_new_peer_sends_at_session_cap" : "step_established_peer_sends_at_session_cap"]++;
-    for (int i = 0; i < n; i++) psendOne(p, L[l].sa, L[l].addr, 0, 0, pickLen());
+    for (int i = 0; i < n; i++) psendOne(p, dstFor(l, p), L[l].addr, 0, 0, pickLen());
     feat["step_peer_send_to_listener"]++;
     waitData(before + uint64_t(n), "peer-send", refusable);
   }
@@ -562,6 +607,8 @@ struct Hist
     DS &d = S[r.pick(v)];
     int q = int(r.below(P.size()));
     if (q == d.peer) q = (q + 1) % int(P.size());
+    if (P[q].v6 != P[d.peer].v6) { for (size_t i = 0; i < P.size(); i++) if (int(i) != d.peer && P[i].v6 == P[d.peer].v6) { q = int(i); break; } }
+    if (P[q].v6 != P[d.peer].v6) { stepPeerSend(); return; }
     psendOne(q, d.localSa, d.local, 2, d.sid, pickLen());
     feat["step_foreign_peer_to_connected_port"]++;
     vf::sleepMs(3);
@@ -623,7 +670,7 @@ struct Hist
     if (l < 0) l = int(r.below(L.size()));
     Ev e; e.k = Ev::OPEN; e.id = nextOp++; e.cls = 2; e.peer = p; e.a1 = P[p].addr; e.a3 = L[l].addr;
     size_t at = W.add(std::move(e));
-    auto cr = T->connectViaListener(L[l].id, host(), P[p].sa.port());
+    auto cr = T->connectViaListener(L[l].id, viaHost(p), P[p].sa.port());
     uint64_t sid = cr.isOk() ? cr.value() : 0;
     { std::lock_guard<std::mutex> g(W.m); W.log[at].rc = cr.isOk() ? 1 : 0; W.log[at].sid = sid; }
     feat["step_via"]++;
@@ -641,7 +688,7 @@ struct Hist
     if (p < 0) p = int(r.below(P.size()));
     Ev e; e.k = Ev::OPEN; e.id = nextOp++; e.cls = 1; e.peer = p; e.a1 = P[p].addr;
     size_t at = W.add(std::move(e));
-    auto cr = T->connect(host(), P[p].sa.port());
+    auto cr = T->connect(P[p].ip, P[p].sa.port());
     uint64_t sid = cr.isOk() ? cr.value() : 0;
     { std::lock_guard<std::mutex> g(W.m); W.log[at].rc = cr.isOk() ? 1 : 0; W.log[at].sid = sid; }
     feat["step_connect"]++;
@@ -662,7 +709,7 @@ struct Hist
   void noteDropsOf(const std::string &local)
   {
     std::map<std::string, uint64_t> d;
-    if (!readUdpDrops(d, v6)) { meta.dropsReadable = false; return; }
+    if (!readUdpDrops(d, lstV6())) { meta.dropsReadable = false; return; }
     auto it = d.find(local);
     if (it != d.end()) meta.dropsAtPort[local] = std::max(meta.dropsAtPort[local], it->second);
   }
@@ -699,7 +746,7 @@ struct Hist
     absorb();
   }
   // smallest payload the kernel refuses with EMSGSIZE: 65507 + 1 over IPv4, 65527 + 1 over IPv6
-  size_t oversize() const { return v6 ? 65528 : 65508; }
+  size_t oversize() const { return lstV6() ? 65528 : 65508; }
   // accepted send that the kernel refuses with EMSGSIZE: the session is closed on error
   void stepOversize()
   {
@@ -738,7 +785,7 @@ struct Hist
       int ll = int(r.below(L.size()));
       uint32_t len = pickLen();
       if (sessionCap && !established(pp)) strangers.insert(pp);
-      psendOne(pp, L[ll].sa, L[ll].addr, 0, 0, len);
+      psendOne(pp, dstFor(ll, pp), L[ll].addr, 0, 0, len);
       if (mi < mine.size()) fire(mine[mi++]);
     }
     bool refusable = sessionCap && !strangers.empty() && openBefore + strangers.size() > sessionCap;
@@ -946,7 +993,7 @@ struct Hist
     for (int attempt = 0; attempt < 6; attempt++)
     {
       d.clear();
-      bool ok = readUdpDrops(d, v6), allThere = true;
+      bool ok = readUdpDrops(d, lstV6()), allThere = true;
       for (auto &l : L) if (!d.count(l.addr)) allThere = false;
       if (!ok) { meta.dropsReadable = false; break; }
       if (allThere) break;
@@ -970,8 +1017,8 @@ struct Hist
   std::string cfgJson() const
   {
     char b[600];
-    snprintf(b, sizeof b, "{\"mode\":%s,\"seed\":%llu,\"index\":%llu,\"ipv6\":%d,\"listeners\":%zu,\"peers\":%zu,\"edgeTriggered\":%d,\"batching\":%d,\"soSndBuf\":%d,\"maxWriteQueue\":%zu,\"closeOnBackpressure\":%d,\"ioReadChunk\":%zu,\"maxSessions\":%zu}",
-             vf::jstr(mode).c_str(), (unsigned long long)seed, (unsigned long long)idx, int(v6), L.size(), P.size(), int(cfg.useEdgeTriggered), int(cfg.batching.enabled), cfg.soSndBuf,
+    snprintf(b, sizeof b, "{\"mode\":%s,\"seed\":%llu,\"index\":%llu,\"ipv6\":%d,\"dualStack\":%d,\"wideLoopback\":%d,\"listeners\":%zu,\"peers\":%zu,\"edgeTriggered\":%d,\"batching\":%d,\"soSndBuf\":%d,\"maxWriteQueue\":%zu,\"closeOnBackpressure\":%d,\"ioReadChunk\":%zu,\"maxSessions\":%zu}",
+             vf::jstr(mode).c_str(), (unsigned long long)seed, (unsigned long long)idx, int(v6), int(dual), int(wideLoopback), L.size(), P.size(), int(cfg.useEdgeTriggered), int(cfg.batching.enabled), cfg.soSndBuf,
              cfg.maxWriteQueue, int(cfg.closeOnBackpressure), cfg.ioReadChunk, sessionCap);
     return b;
   }
@@ -1008,7 +1055,9 @@ struct Hist
     for (auto &kv : feat) O.obs(kv.first, kv.second);
     O.obs("events_logged", W.log.size());
     if (L.size() == 2) O.obs("histories_two_listeners");
-    O.obs(v6 ? "histories_ipv6" : "histories_ipv4");
+    O.obs(v6 ? "histories_ipv6" : dual ? "histories_dual_stack_listener" : "histories_ipv4");
+    if (dual) { size_t n4 = 0; for (auto &p : P) if (!p.v6) n4++; if (n4 >= 2) O.obs("histories_dual_stack_with_several_v4_mapped_peers"); }
+    if (wideLoopback) O.obs("histories_peers_on_other_127_addresses");
     if (sessionCap) O.obs("histories_session_cap");
     if (cfg.batching.enabled) O.obs("histories_batched_loop");
     if (!cfg.useEdgeTriggered) O.obs("histories_level_triggered");
@@ -1017,7 +1066,7 @@ struct Hist
     auto has = [&](const char *k) { auto it = R.obs.find(k); return it != R.obs.end() && it->second > 0; };
     uint64_t sig = vf::fnv(mode);
     auto mixin = [&](uint64_t v) { sig = (sig ^ v) * 1099511628211ull; };
-    mixin(L.size()); mixin(v6); mixin(sessionCap != 0); mixin(has("datagrams_from_new_peer_refused_at_session_cap")); mixin(P.size() > 4); mixin(cfg.useEdgeTriggered); mixin(cfg.batching.enabled); mixin(smallSnd); mixin(smallQueue); mixin(cfg.ioReadChunk == 65507);
+    mixin(L.size()); mixin(v6); mixin(dual); mixin(wideLoopback); mixin(sessionCap != 0); mixin(has("datagrams_from_new_peer_refused_at_session_cap")); mixin(P.size() > 4); mixin(cfg.useEdgeTriggered); mixin(cfg.batching.enabled); mixin(smallSnd); mixin(smallQueue); mixin(cfg.ioReadChunk == 65507);
     mixin(has("via_to_peer_with_open_receiving_session")); mixin(has("close_of_other_session_while_receiving_session_open"));
     mixin(has("probes_after_close_of_other_session")); mixin(has("delivered_ge_60000")); mixin(has("wire_ge_60000")); mixin(has("delivered_lt_16"));
     mixin(has("closes_idle_expiry")); mixin(has("closes_on_error")); mixin(has("connects")); mixin(has("delivered_on_session_of_another_listener"));
